@@ -880,6 +880,64 @@ func judgeC16Mut(c Case) *h.Verdict {
 			}
 		}
 	}
+	// one more element after the last member of the outermost constructed value (an extension addition, or the last
+	// member sent twice): inside the container, its length adjusted
+	if len(pos) > 1 && ref[pos[0].idOff]&0x20 != 0 {
+		top := pos[0]
+		var last *elemPos
+		cur := top.contentOff
+		for i := range pos[1:] {
+			ep := pos[1+i]
+			if ep.idOff == cur {
+				last = &pos[1+i]
+				cur = ep.contentOff + ep.contentLen
+			}
+		}
+		if last != nil && cur == top.contentOff+top.contentLen {
+			dup := ref[last.idOff : last.contentOff+last.contentLen]
+			for _, extra := range [][]byte{dup, {0x9f, 0x7f, 0x01, 0x00}, {0x05, 0x00}} {
+				content := append(append([]byte{}, ref[top.contentOff:top.contentOff+top.contentLen]...), extra...)
+				in := append([]byte{}, ref[top.idOff:top.lenOff]...)
+				n := len(content)
+				if n < 128 {
+					in = append(in, byte(n))
+				} else {
+					var tmp []byte
+					for l := n; l > 0; l >>= 8 {
+						tmp = append([]byte{byte(l)}, tmp...)
+					}
+					in = append(append(in, 0x80|byte(len(tmp))), tmp...)
+				}
+				in = append(in, content...)
+				if !try(in, "any", "element-after-last-member") {
+					return v
+				}
+			}
+		}
+	}
+	// the valid encoding decoded into a target that is not fresh: its list members (at the top and one level down)
+	// are empty with spare capacity, as after a reset with [:0] of a value decoded into before
+	{
+		out := reflect.New(typ)
+		spare := func(x reflect.Value) {
+			if x.Kind() == reflect.Slice && x.Type().Elem().Kind() != reflect.Uint8 && x.CanSet() {
+				x.Set(reflect.MakeSlice(x.Type(), 0, 8))
+			}
+		}
+		spare(out.Elem())
+		if out.Elem().Kind() == reflect.Struct {
+			for i := 0; i < out.Elem().NumField(); i++ {
+				spare(out.Elem().Field(i))
+			}
+		}
+		var derr error
+		p, val, st := h.Safely(func() { derr = asn.UnmarshalWithParams(append([]byte{}, ref...), out.Interface(), c.Params) })
+		v.Label("class:target-not-fresh")
+		if p {
+			return v.Failf("panic/"+h.PanicClass(val)+"/"+h.PanicFrame(st), "unmarshal of the valid %s encoding %x (params %q) into a target whose lists are empty with spare capacity panicked: %v\n%s", typ, trunc(ref), c.Params, val, st)
+		}
+		_ = derr
+	}
 	// identifiers that name the right number in the wrong way: the number plus 2^64 (ten base-128 digits: a decoder
 	// that accumulates in 64 bits sees the member's own number), and the member's number under the APPLICATION or
 	// PRIVATE class.  Tried on the outermost element and on each of its direct members when those are context-tagged.
